@@ -24,6 +24,12 @@ package main
 //
 // InputUses: for every Minify method/function of the library the uses of its io.Reader parameter (by object, the parameter
 // being the one whose type is io.Reader under whatever import name).
+//
+// RetFacts (ownership of returned memory, read from the same normal form): for Bytes and String, result 0 of every `return`
+// (the input parameter, `X.Bytes()` of the output buffer, a copy of it, or something else) and where that buffer X comes
+// from: a FRESH LOCAL (allocated in this call, never re-assigned, used only as the writer argument of m.Minify and as the
+// receiver of Bytes/Len/String/Write*/Reset) or SHARED (package-level variable, sync.Pool, struct field, parameter, or a
+// local that escapes into another call / defer / closure / assignment).  Model/Stream.lean demands a fresh local.
 
 import (
 	"fmt"
@@ -711,6 +717,215 @@ func (c *c12Walker) list(stmts []ast.Stmt) []string {
 	return out
 }
 
+// ---- ownership of returned memory ----
+
+var c12FreshAlloc = regexp.MustCompile(`^(buffer\.NewWriter\(make\(\[\]byte, .*\)\)|bytes\.NewBuffer\((make\(\[\]byte, .*\)|nil)\)|&bytes\.Buffer\{\}|new\(bytes\.Buffer\)|&buffer\.Writer\{\}|bytes\.Buffer\{\})$`)
+
+var c12BufMethods = map[string]bool{"Bytes": true, "Len": true, "String": true, "Write": true, "WriteByte": true, "WriteString": true, "Reset": true}
+
+// bufOfBytesCall: e is `X.Bytes()` (or `X.String()` when str) with X an identifier
+func c12BufOf(e ast.Expr, method string) (string, bool) {
+	call, ok := e.(*ast.CallExpr)
+	if !ok || len(call.Args) != 0 {
+		return "", false
+	}
+	sel, ok := call.Fun.(*ast.SelectorExpr)
+	if !ok || sel.Sel.Name != method {
+		return "", false
+	}
+	id, ok := sel.X.(*ast.Ident)
+	if !ok {
+		return "", false
+	}
+	return id.Name, true
+}
+
+// c12RetExpr classifies result 0 of a return; buf is the buffer variable it refers to ("" if none)
+func (c *c12Walker) retExpr(e ast.Expr, input string) (atom, buf string) {
+	if id, ok := e.(*ast.Ident); ok && id.Name == input {
+		return "RetExpr.input", ""
+	}
+	if x, ok := c12BufOf(e, "Bytes"); ok {
+		return "RetExpr.bufBytes", x
+	}
+	if x, ok := c12BufOf(e, "String"); ok { // bytes.Buffer.String copies
+		return "RetExpr.copyOfBuf", x
+	}
+	if call, ok := e.(*ast.CallExpr); ok {
+		fn := c.text(call.Fun)
+		switch {
+		case (fn == "string" || fn == "parse.Copy" || fn == "bytes.Clone" || fn == "slices.Clone") && len(call.Args) == 1:
+			if x, ok := c12BufOf(call.Args[0], "Bytes"); ok {
+				return "RetExpr.copyOfBuf", x
+			}
+		case fn == "append" && len(call.Args) == 2 && call.Ellipsis.IsValid():
+			a0 := c.text(call.Args[0])
+			if x, ok := c12BufOf(call.Args[1], "Bytes"); ok && (a0 == "[]byte(nil)" || a0 == "[]byte{}") {
+				return "RetExpr.copyOfBuf", x
+			}
+		}
+	}
+	return "RetExpr.other " + leanStr(c12Clip(c.text(e))), ""
+}
+
+func c12Clip(t string) string {
+	if len(t) > 100 {
+		t = t[:100] + "…"
+	}
+	return t
+}
+
+// bufOrigin: where the local `name` of fd comes from and whether it stays inside the call
+func (c *c12Walker) bufOrigin(fd *ast.FuncDecl, name string) string {
+	shared := func(why string) string { return "BufOrigin.shared " + leanStr(c12Clip(why)) }
+	if name == "" {
+		return shared("no output buffer recognised")
+	}
+	declText, fresh, ndecl := "", false, 0
+	var declIdent *ast.Ident
+	var stack []ast.Node
+	escape := ""
+	ast.Inspect(fd.Body, func(n ast.Node) bool {
+		if n == nil {
+			stack = stack[:len(stack)-1]
+			return true
+		}
+		stack = append(stack, n)
+		switch st := n.(type) {
+		case *ast.AssignStmt:
+			for i, l := range st.Lhs {
+				if id, ok := l.(*ast.Ident); ok && id.Name == name {
+					if st.Tok == token.DEFINE && len(st.Lhs) == 1 && len(st.Rhs) == 1 && i == 0 {
+						ndecl++
+						declIdent = id
+						declText = c.text(st)
+						fresh = c12FreshAlloc.MatchString(c.text(st.Rhs[0]))
+					} else if escape == "" {
+						escape = "re-assigned: " + c.text(st)
+					}
+				}
+			}
+		case *ast.ValueSpec:
+			for _, id := range st.Names {
+				if id.Name == name {
+					ndecl++
+					declIdent = id
+					declText = "var " + c.text(st)
+					t := ""
+					if st.Type != nil {
+						t = c.text(st.Type)
+					}
+					fresh = len(st.Values) == 0 && (t == "bytes.Buffer" || t == "buffer.Writer")
+				}
+			}
+		}
+		return true
+	})
+	if ndecl != 1 {
+		return shared(fmt.Sprintf("%s is not a local declared once in this function (parameter, package-level variable or field)", name))
+	}
+	if !fresh {
+		return shared(declText)
+	}
+	// every other use must keep the buffer inside the call
+	stack = stack[:0]
+	ast.Inspect(fd.Body, func(n ast.Node) bool {
+		if n == nil {
+			stack = stack[:len(stack)-1]
+			return true
+		}
+		stack = append(stack, n)
+		id, ok := n.(*ast.Ident)
+		if !ok || id.Name != name || id == declIdent || escape != "" {
+			return true
+		}
+		up := func(k int) ast.Node {
+			if len(stack) > k {
+				return stack[len(stack)-1-k]
+			}
+			return nil
+		}
+		stmt := func() string {
+			for i := len(stack) - 1; i >= 0; i-- {
+				if s, ok := stack[i].(ast.Stmt); ok {
+					return c.text(s)
+				}
+			}
+			return name
+		}
+		for _, a := range stack {
+			switch a.(type) {
+			case *ast.FuncLit, *ast.DeferStmt, *ast.GoStmt:
+				escape = "used in a closure / defer / go statement: " + stmt()
+				return true
+			}
+		}
+		cur, parent := ast.Node(id), up(1)
+		if u, ok := parent.(*ast.UnaryExpr); ok && u.Op == token.AND { // &out
+			cur, parent = u, up(2)
+		}
+		switch p := parent.(type) {
+		case *ast.SelectorExpr:
+			if p.X == cur && c12BufMethods[p.Sel.Name] {
+				if call, ok := up(2).(*ast.CallExpr); ok && call.Fun == ast.Expr(p) {
+					return true
+				}
+			}
+			if p.Sel == id { // a field or method called `name` of something else
+				return true
+			}
+		case *ast.CallExpr:
+			fn := c.text(p.Fun)
+			if (fn == "m.Minify" && len(p.Args) == 3 || fn == "m.MinifyMimetype" && len(p.Args) == 4) && p.Args[1] == cur {
+				return true
+			}
+		}
+		escape = "escapes: " + stmt()
+		return true
+	})
+	if escape != "" {
+		return shared(escape)
+	}
+	return "BufOrigin.freshLocal " + leanStr(c12Clip(declText))
+}
+
+// retFact renders the RetFact of one of Bytes / String
+func (c *c12Walker) retFact(fd *ast.FuncDecl, label string) (string, error) {
+	if fd.Type.Params == nil || len(fd.Type.Params.List) != 2 || len(fd.Type.Params.List[1].Names) != 1 {
+		return "", fmt.Errorf("%s: expected parameters (mediatype string, v T)", label)
+	}
+	input := fd.Type.Params.List[1].Names[0].Name
+	var rets []string
+	buf, mixed := "", false
+	var walk func(n ast.Node) bool
+	walk = func(n ast.Node) bool {
+		switch st := n.(type) {
+		case *ast.FuncLit:
+			return false
+		case *ast.ReturnStmt:
+			if len(st.Results) == 0 {
+				rets = append(rets, "RetExpr.other "+leanStr("naked return"))
+				return true
+			}
+			a, b := c.retExpr(st.Results[0], input)
+			rets = append(rets, a)
+			if b != "" {
+				if buf != "" && buf != b {
+					mixed = true
+				}
+				buf = b
+			}
+		}
+		return true
+	}
+	ast.Inspect(fd.Body, walk)
+	origin := c.bufOrigin(fd, buf)
+	if mixed {
+		origin = "BufOrigin.shared " + leanStr("several different buffers are returned")
+	}
+	return fmt.Sprintf("  { func := %s, buf := %s, returns := [%s] }", leanStr(label), origin, strings.Join(rets, ", ")), nil
+}
+
 // readerUses classifies every use of the io.Reader parameter in the function body (shared typed AST, by object).
 func c12ReaderUses(e *tenv, p *packages.Package, fd *ast.FuncDecl, robj types.Object) []string {
 	info := p.TypesInfo
@@ -769,7 +984,7 @@ func init() {
 		}
 		c := &c12Walker{fset: cp.fset}
 		var sb strings.Builder
-		sb.WriteString("import Verif.Base.SkelIR\n")
+		sb.WriteString("import Verif.Base.SkelIR\nimport Verif.Base.SkelOwn\n")
 		sb.WriteString(header("Wrappers", "/repo/minify.go (wrapper functions) and the Minify methods of all library packages"))
 		sb.WriteString("open Verif.Skel Verif.Skel.WAtom\n\n")
 		funcs := []struct{ field, recv, name string }{
@@ -778,6 +993,7 @@ func init() {
 			{"responseWriter", "M", "ResponseWriter"}, {"middleware", "M", "Middleware"}, {"middlewareWithError", "M", "MiddlewareWithError"},
 			{"bytes", "M", "Bytes"}, {"string", "M", "String"},
 		}
+		normalised := map[string]*ast.FuncDecl{}
 		sb.WriteString("def skel : WSkel :=\n  {")
 		for i, f := range funcs {
 			fd, err := cp.funcDecl(f.recv, f.name)
@@ -786,7 +1002,8 @@ func init() {
 			}
 			n := &c12Norm{c: cp}
 			n.normalise(fd, f.recv+"."+f.name)
-			stripPos(fd.Body)
+			stripPos(fd)
+			normalised[f.name] = fd
 			atoms := c.list(fd.Body.List)
 			if i > 0 {
 				sb.WriteString("\n   ")
@@ -827,6 +1044,19 @@ func init() {
 				sep = ""
 			}
 			fmt.Fprintf(&sb, "  { func := %s, uses := [%s] }%s\n", leanStr(f.label), strings.Join(prefixAll(uses, "RUse."), ", "), sep)
+		}
+		sb.WriteString("]\n\n")
+		// RetFacts (on the normal form: canonical names, so `m.Minify`, `out`, `v` are what they denote, not how they are spelled)
+		sb.WriteString("def retFacts : List RetFact := [\n")
+		for i, name := range []string{"Bytes", "String"} {
+			line, err := c.retFact(normalised[name], name)
+			if err != nil {
+				return "", err
+			}
+			if i == 0 {
+				line += ","
+			}
+			sb.WriteString(line + "\n")
 		}
 		sb.WriteString("]\n")
 		sb.WriteString(footer("Wrappers"))
